@@ -1,5 +1,12 @@
-// mimewitness writes the replay files of the open C05 findings (replays/F07.json, replays/F07b.json):
-// the witness of the `decide`d Lean theorem, run once on the real code and on the driver.
+// mimewitness writes the committed replay files of C05:
+//
+//	replays/F07b.json  the witness of the OPEN finding F07b (Lean: C05_F07b_witness), run once on the
+//	                   real code and on the driver: a failing case of the known class
+//	replays/F07.json   the former witnesses of the finding F07 REPAIRED by d89a7d4 (Lean: C05_F07_fixed)
+//	                   as a regression record: for each, the line with the answers the real code gives
+//	                   today (the predicate must hold) and the line with the answers recorded before the
+//	                   repair (the predicate must fail).  `vcheck check C05` replays this file on every run.
+//
 // usage (from harness/, after bin/build-harness): go run -modfile=$VERIF_OUT/harness.mod ./cmd/mimewitness <dir>
 package main
 
@@ -13,23 +20,34 @@ import (
 	"verifharness/internal/mime"
 )
 
+func fail(err error) {
+	fmt.Fprintln(os.Stderr, err)
+	os.Exit(2)
+}
+
 func main() {
 	if p := os.Getenv("VERIF_DRIVER"); p != "" {
 		drv.Path = p
 	}
 	dir := os.Args[1]
-	mime.Open = map[string]bool{"F07": true, "F07b": true}
-	for id, w := range mime.Witnesses() {
+
+	// the open finding
+	mime.Open = map[string]bool{"F07b": true}
+	{
+		id := "F07b"
+		w := mime.Witnesses()[id]
 		var r *mime.Result
 		for t := 0; t < 40; t++ {
 			var err error
 			if r, err = mime.One(w); err != nil {
-				fmt.Fprintln(os.Stderr, err)
-				os.Exit(2)
+				fail(err)
 			}
 			if v := r.Judge(); v.Kind == "known" && v.Known == id {
 				break
 			}
+		}
+		if v := r.Judge(); v.Kind != "known" {
+			fail(fmt.Errorf("the witness of %s no longer fails on the real code (verdict %q)", id, v.Kind))
 		}
 		ans, _ := drv.Run([]string{r.Line})
 		b, _ := json.MarshalIndent(map[string]interface{}{"property": "C05", "finding": id,
@@ -38,4 +56,40 @@ func main() {
 				"case": []string{r.Line}, "human": r.Human(), "model": ans[0], "real": r.Human()["real"]}}, "", " ")
 		os.WriteFile(filepath.Join(dir, id+".json"), b, 0o644)
 	}
+
+	// the repaired finding: a regression record
+	lines, expect := mime.RegressionLines()
+	ans, err := drv.Run(lines)
+	if err != nil {
+		fail(err)
+	}
+	var humans []interface{}
+	var reals []string
+	for i, g := range mime.Regressions() {
+		r, err := mime.One(g.Case)
+		if err != nil {
+			fail(err)
+		}
+		if v := r.Judge(); v.Kind != "" {
+			fail(fmt.Errorf("regression %s fails on the real code: %s %s", g.ID, v.Kind, v.What))
+		}
+		h := r.Human()
+		h["regression"] = g.ID
+		h["answered_before_the_repair"] = g.Before.String()
+		h["line_today"], h["line_before_the_repair"] = 2*i, 2*i+1
+		humans = append(humans, h)
+		reals = append(reals, fmt.Sprint(h["real"]))
+	}
+	var f mime.ReplayFile
+	f.Property, f.Finding, f.Status, f.Theorem = "C05", "F07", "fixed d89a7d4", "Restful.Props.C05_F07_fixed"
+	f.Expect = "PASS: lines 0 and 2 carry the answers the real code gives today (spec C05 = 1, model agrees); lines 1 and 3 carry the answers recorded before the repair (spec C05 = 0); the check re-executes both cases on the real code on every run and reports a VIOLATION if they are not answered as the property demands"
+	f.ExpectSpec = expect
+	f.Violation.Kind = "regression"
+	f.Violation.What = "former witnesses of F07 (no Accept header and DefaultResponseContentType set: the default overrode Produces), repaired by d89a7d4; kept as a regression that must pass"
+	f.Violation.Case = lines
+	f.Violation.Human = humans
+	f.Violation.Model = ans[0]
+	f.Violation.Real = reals[0]
+	b, _ := json.MarshalIndent(f, "", " ")
+	os.WriteFile(filepath.Join(dir, "F07.json"), b, 0o644)
 }
